@@ -568,6 +568,13 @@ fn brace_getitem(s: &str, depth: i32) -> (Vec<String>, String) {
                 ss = s_group.clone();
                 continue;
             }
+            if depth > 0 {
+                // no `}` is left for that group, so none is left for the
+                // group we are in: it fails too, whatever the rest holds
+                // (going on would try every inner `{` again, twice as
+                // often per level of nesting)
+                return (out, String::new());
+            }
         }
         // FIXME: here we mean more than one char.
         if c == '\\' && ss.len() > 1 {
